@@ -24,7 +24,8 @@ type CodecCase struct {
 	Seed     uint64     `json:"seed"`
 	Dirty    bool       `json:"dirty"`
 	DSeed    uint64     `json:"dseed,omitempty"`
-	JSON     bool       `json:"json"` // JSON entry points instead of the binary ones
+	JSON     bool       `json:"json"`           // JSON entry points instead of the binary ones
+	Huge     bool       `json:"huge,omitempty"` // rlwe.Scale: a value outside the range of the fixed-size encoding
 }
 
 func genCodec(t *rapid.T) CodecCase {
@@ -34,6 +35,9 @@ func genCodec(t *rapid.T) CodecCase {
 	c.Dirty = rapid.Bool().Draw(t, "dirty")
 	c.DSeed = rapid.Uint64().Draw(t, "dseed")
 	c.JSON = rapid.Bool().Draw(t, "json")
+	if c.Kind == "rlwe.Scale" {
+		c.Huge = rapid.IntRange(0, 7).Draw(t, "huge") == 0
+	}
 	switch c.Kind {
 	case "bgv.Parameters":
 		c.Params = h.GenRLWESpec(t, h.RLWEOpts{MinLogN: 4, MaxLogN: 6, MinQ: 1, MaxQ: 3, MinP: 0, MaxP: 2, MinBits: 30, MaxBits: 60, DefaultDists: rapid.Bool().Draw(t, "dd")})
@@ -57,8 +61,23 @@ func runCodec(c CodecCase, rec *h.Rec) error {
 	rec.Classf("dirty=%v", c.Dirty)
 	switch c.Kind {
 	case "rlwe.Scale":
-		s, cls := genScale(&rngs{SplitMix: h.NewSplitMix(c.Seed)})
+		s, cls := genScale(&rngs{SplitMix: h.NewSplitMix(c.Seed), huge: c.Huge})
 		rec.Class(cls)
+		if c.Huge {
+			// cannot be carried by the fixed-size encoding: both encoders must refuse it
+			b1, e1 := s.MarshalBinary()
+			b2, e2 := json.Marshal(s)
+			if e1 == nil || e2 == nil {
+				msg := fmt.Sprintf("scale %s: BinarySize()=%d, MarshalBinary: %d bytes err=%v, MarshalJSON: %d bytes err=%v", s.Value.Text('g', 6), s.BinarySize(), len(b1), e1, len(b2), e2)
+				if rec.Known(scaleRangeKey, msg) {
+					rec.Class("known=" + scaleRangeKey)
+					return nil
+				}
+				return h.Failf(scaleRangeKey, "%s", msg)
+			}
+			rec.NonTrivial("scale;huge")
+			return nil
+		}
 		var recv rlwe.Scale
 		dcls := "fresh"
 		if c.Dirty {
